@@ -83,7 +83,7 @@ theorem decEid_encEid (e : Eid) (rest : Bytes) (hw : e.wf) :
     have h21 : (2 : Nat) ≠ 1 := by decide
     simp only [h21, if_false, if_true]
     rw [decArray_encArray 2 _ (by decide), ok_bind]
-    simp only [ne_eq, not_true_eq_false, if_false]
+    simp only [not_true_eq_false, if_false]
     rw [decUInt_encUInt n _ h1, ok_bind, decUInt_encUInt s _ h2, ok_bind]
 
 theorem decItem_encItem (it : Item) (rest : Bytes) (hw : it.wf) :
@@ -147,7 +147,7 @@ theorem decStatusReport_enc (r : Record) (rest : Bytes) (hw : r.wf) :
       decArray_encArray 2 _ (by decide), ok_bind]
     simp only [ne_eq, not_true_eq_false, if_false]
     rw [decUInt_encUInt t _ ht, ok_bind, decUInt_encUInt sq _ hq, ok_bind]
-    simp only [show ((2 : Nat) + 4 = 6) = True by simp, if_true]
+    simp only [if_true]
     rw [decUInt_encUInt o _ ho, ok_bind, decUInt_encUInt tot _ htot, ok_bind]
 
 /-- The receiver of a report reads back exactly the record the node wrote, consuming exactly the
@@ -158,7 +158,7 @@ theorem decAdminRecord_enc (r : Record) (rest : Bytes) (hw : r.wf) :
   rw [decArray_encArray 2 _ (by decide), ok_bind]
   simp only [ne_eq, not_true_eq_false, if_false]
   rw [decUInt_encUInt 1 _ (by decide), ok_bind]
-  simp only [ne_eq, not_true_eq_false, if_false]
+  simp only [not_true_eq_false, if_false]
   exact decStatusReport_enc r rest hw
 
 theorem newItem_wf (t : Option Nat) (p i : Nat) (ht : ∀ x, t = some x → u64 x) :
